@@ -23,6 +23,15 @@ pub use generate_artifacts::get_artifact_path_and_content;
 #[cfg(kani)]
 pub mod verif_hooks {
     use intern::string_key::Intern;
+    use isograph_lang_types::ArgumentKeyAndValue;
+
+    /// The JavaScript text emitted into the normalization AST for a field's arguments.
+    pub fn serialized_field_arguments(
+        arguments: &[ArgumentKeyAndValue],
+        indentation_level: u8,
+    ) -> String {
+        crate::generate_artifacts::get_serialized_field_arguments(arguments, indentation_level)
+    }
 
     pub fn write_optional_description(
         description: Option<&str>,
